@@ -54,16 +54,21 @@ Fixpoint mset {V} (k : N) (v : V) (m : amap V) : amap V :=
 
 Definition mdel {V} (k : N) (m : amap V) : amap V := filter (fun e => negb (N.eqb (fst e) k)) m.
 
+(* a timer entry: the overlay address handed to Timer.Add and - ghost, never read by an operation - the serial
+   number of that Add, which tells apart several entries for one address *)
+Notation titem := (N * N)%type (only parsing).
+
 Record rstate := mkRS {
-  wh : wheel N;            (* OutboundHandshakeTimer: items are overlay addresses *)
+  wh : wheel titem;        (* OutboundHandshakeTimer *)
   pend : amap pent;        (* HandshakeManager.vpnIps *)
   ridx : list N;           (* hostinfos registered in HandshakeManager.indexes *)
   rnxt : N;                (* the id the next pending hostinfo gets *)
-  tr : list (Wheel.op N)   (* ghost: every operation performed on the wheel so far *)
+  rser : N;                (* ghost: number of Timer.Add calls so far *)
+  tr : list (Wheel.op titem)   (* ghost: every operation performed on the wheel so far *)
 }.
 
 Definition rinit (cfg : rcfg) : rstate :=
-  mkRS (init (r_interval cfg) (hs_timeout (r_retries cfg) (r_interval cfg))) [] [] 1 [].
+  mkRS (init (r_interval cfg) (hs_timeout (r_retries cfg) (r_interval cfg))) [] [] 1 0 [].
 
 Inductive rop :=
 | RStart (a : N) (remotes : list N)   (* StartHandshake(a); the lighthouse cache holds these underlay addresses *)
@@ -87,20 +92,21 @@ Definition nl_eqb (l1 l2 : list N) : bool :=
 
 Definition remove_id (h : N) (l : list N) : list N := filter (fun x => negb (N.eqb x h)) l.
 
-Definition set_wh (s : rstate) (w : wheel N) (o : Wheel.op N) : rstate :=
-  mkRS w (pend s) (ridx s) (rnxt s) (tr s ++ [o]).
+Definition set_wh (s : rstate) (w : wheel titem) (o : Wheel.op titem) : rstate :=
+  mkRS w (pend s) (ridx s) (rnxt s) (rser s) (tr s ++ [o]).
 
 (* Timer.Add(a, T) *)
-Definition arm (a : N) (T : Z) (s : rstate) : rstate := set_wh s (add a T (wh s)) (OAdd a T).
+Definition arm (a : N) (T : Z) (s : rstate) : rstate :=
+  mkRS (add (a, rser s) T (wh s)) (pend s) (ridx s) (rnxt s) (N.succ (rser s)) (tr s ++ [OAdd (a, rser s) T]).
 
 (* StartHandshake(a) when no handshake is pending for a: a fresh hostinfo, armed with tryInterval *)
 Definition fresh (cfg : rcfg) (a : N) (remotes : list N) (store : list pkt) (s : rstate) : rstate :=
   let e := mkPE (rnxt s) 0 false store [] remotes in
-  arm a (r_interval cfg) (mkRS (wh s) (mset a e (pend s)) (ridx s) (N.succ (rnxt s)) (tr s)).
+  arm a (r_interval cfg) (mkRS (wh s) (mset a e (pend s)) (ridx s) (N.succ (rnxt s)) (rser s) (tr s)).
 
 (* HandshakeManager.DeleteHostInfo for the pending entry e of a *)
 Definition drop (a : N) (e : pent) (s : rstate) : rstate :=
-  mkRS (wh s) (mdel a (pend s)) (remove_id (p_id e) (ridx s)) (rnxt s) (tr s).
+  mkRS (wh s) (mdel a (pend s)) (remove_id (p_id e) (ridx s)) (rnxt s) (rser s) (tr s).
 
 (* cachePacket *)
 Definition cache (e : pent) (p : pkt) : pent :=
@@ -119,10 +125,10 @@ Definition handle (cfg : rcfg) (a : N) (lh : bool) (s : rstate) : rstate * list 
         let idx' := if p_ready e then ridx s else ridx s ++ [p_id e] in   (* buildStage0Packet -> allocateIndex *)
         let changed := negb (nl_eqb (p_remotes e) (p_last e)) in
         if lh && negb changed then
-          (mkRS (wh s) (mset a (mkPE (p_id e) c true (p_store e) (p_last e) (p_remotes e)) (pend s)) idx' (rnxt s) (tr s), [])
+          (mkRS (wh s) (mset a (mkPE (p_id e) c true (p_store e) (p_last e) (p_remotes e)) (pend s)) idx' (rnxt s) (rser s) (tr s), [])
         else
           let e' := mkPE (p_id e) c true (p_store e) (p_remotes e) (p_remotes e) in
-          let s1 := mkRS (wh s) (mset a e' (pend s)) idx' (rnxt s) (tr s) in
+          let s1 := mkRS (wh s) (mset a e' (pend s)) idx' (rnxt s) (rser s) (tr s) in
           ((if lh then s1 else arm a (r_interval cfg * c) s1), map (RSend (p_id e)) (p_remotes e))
   end.
 
@@ -134,7 +140,7 @@ Fixpoint drain (cfg : rcfg) (fuel : nat) (s : rstate) : rstate * list rout :=
   | S f =>
       match purge (wh s) with
       | (None, _) => (s, [])
-      | (Some a, w') =>
+      | (Some (a, _), w') =>
           let (s2, o) := handle cfg a false (set_wh s w' OPurge) in
           let (s3, o') := drain cfg f s2 in
           (s3, o ++ o')
@@ -154,18 +160,18 @@ Definition rstep (cfg : rcfg) (o : rop) (s : rstate) : rstate * list rout :=
       end
   | RCache a p =>
       match mget a (pend s) with
-      | Some e => (mkRS (wh s) (mset a (cache e p) (pend s)) (ridx s) (rnxt s) (tr s), [])
+      | Some e => (mkRS (wh s) (mset a (cache e p) (pend s)) (ridx s) (rnxt s) (rser s) (tr s), [])
       | None =>
           let s1 := fresh cfg a [] [] s in
           match mget a (pend s1) with
-          | Some e => (mkRS (wh s1) (mset a (cache e p) (pend s1)) (ridx s1) (rnxt s1) (tr s1), [])
+          | Some e => (mkRS (wh s1) (mset a (cache e p) (pend s1)) (ridx s1) (rnxt s1) (rser s1) (tr s1), [])
           | None => (s1, [])
           end
       end
   | RSetRemotes a l =>
       match mget a (pend s) with
       | Some e => (mkRS (wh s) (mset a (mkPE (p_id e) (p_counter e) (p_ready e) (p_store e) (p_last e) l) (pend s))
-                        (ridx s) (rnxt s) (tr s), [])
+                        (ridx s) (rnxt s) (rser s) (tr s), [])
       | None => (s, [])
       end
   | RTrigger a => handle cfg a true s
